@@ -51,6 +51,20 @@ theorem C08_unambiguous {G : Grammar} {A : Automaton} {C : Cert} (hv : Valid G A
   rw [e₁] at e₂
   cases e₂; rfl
 
+/-- **Exactly the grammar's language.**  Over validated tables the parser accepts `w` with tree
+`t` iff `t` is a derivation of `w`. -/
+theorem C08_accepts_iff {G : Grammar} {A : Automaton} {C : Cert} (hv : Valid G A C)
+    {w : List Token} (hw : ∀ t ∈ w, t.sym ≠ G.eoi) (t : Tree) :
+    (∃ fuel, run A fuel w = .accept t) ↔ Derives G t w :=
+  ⟨fun ⟨_, h⟩ => C08_sound hv hw h, fun hd =>
+    let ⟨f, hf⟩ := C08_complete hv hd
+    ⟨f, hf f (Nat.le_refl _)⟩⟩
+
+/- Full statement (NOT proved):
+     theorem C08_terminates (hv : Valid G A C) (w : List Token) : ∃ fuel, run A fuel w ≠ .outOfFuel
+   Missing: termination of runs that end in an error (an infinite sequence of reductions at a fixed
+   input position would have to be excluded through the absence of cyclic derivations).  Proved
+   fragment: -/
 /-- Accepting runs terminate (from completeness); for rejected inputs termination of the model
 run is not proved here: see `C08_error_position`, which is conditional on an error result. -/
 theorem C08_terminates_partial {G : Grammar} {A : Automaton} {C : Cert} (hv : Valid G A C)
